@@ -1,6 +1,7 @@
 """C10 — LoopingCall: cadence on start + k*interval, no overlap, skip counts, start() Deferred.
 
-A LoopingCall (plain or withCount) runs on a task.Clock the harness owns.  A
+One to three LoopingCalls (plain or withCount) share a controlled clock the harness
+owns: a task.Clock or a ReactorBase whose seconds() is a harness variable.  A
 generated scenario fixes the interval, `now`, the behaviour of every call of
 the function (return / raise / fired or failed Deferred / Deferred fired after
 a latency / Deferred fired by a later operation; optionally stop() or reset()
@@ -17,10 +18,10 @@ META = dict(
     property="C10",
     level="exploration",
     technique="model-based scenario testing (Hypothesis scenarios + complete short scenarios) of LoopingCall on a harness-owned task.Clock against an exact integer boundary model",
-    level_text="Random scenarios (interval 1..64 ticks of 1/16 s, start offset, now/withCount flags, per-call behaviours, up to 60 operations) and every scenario of a small scope (2 intervals x now x withCount x 25 behaviour pairs x all operation sequences of length <= 3 (quick) / <= 5 (thorough) over 7 letters) are executed on the real LoopingCall; every invocation, every rescheduling observed through Clock.getDelayedCalls(), every count and the start() Deferred are compared with the model. Exploration, not proof.",
-    level_note="task.Clock is the trusted clock (its own behaviour is C09). Times are multiples of 1/16 s so float arithmetic in _scheduleFrom/_intervalOf is exact. interval 0 and restarting a stopped loop are outside the statement and not generated. Counts are checked call by call: the count must equal the number of grid boundaries in (previous invocation, now]; across a reset() with a call pending (which re-anchors the grid at the reset time, per its docstring) the part before the reset may be read as old-grid boundaries crossed or as whole intervals elapsed, both accepted, nothing else. A reset() while the function's Deferred is outstanding is not defined by the statement or the docs (the current code ignores it; re-anchoring at the reset time is an equally coherent reading of 'reset the timer'): either base is accepted, but all later calls must stay on the ONE grid the implementation chose, and only the first count after a re-anchoring/ambiguous in-flight reset is left unconstrained. stop()/reset() are only issued while the model says the loop is running (otherwise LoopingCall asserts).",
+    level_text="Random scenarios (1-3 LoopingCalls, plain or withCount, sharing one controlled clock that is either a task.Clock or a ReactorBase with owned seconds(); intervals 1..64 ticks of 1/16 s, per-call behaviours, unrelated timers on the same clock, up to 60 operations, optionally one churn of 52-64 reset+tick rounds) and three complete small scopes (one loop: 2 intervals x now x withCount x 25 behaviour pairs x all op sequences of length <= 3 quick / <= 5 thorough over 7 letters; two loops on either clock kind: all sequences <= 3 / <= 4 over 8 letters; three loops with one churned, then all advance sequences <= 2 / <= 3) are executed on the real LoopingCall; every invocation, every rescheduling observed through the clock's getDelayedCalls(), every count and each start() Deferred are compared with a per-loop model. Exploration, not proof.",
+    level_note="The clocks are the real task.Clock and the real ReactorBase timer queue (their own behaviour is C09/C08): a loop whose call is lost, delayed or unscheduled by the clock or by another loop's stop()/reset() violates its own cadence and is reported on that loop. Times are multiples of 1/16 s so float arithmetic in _scheduleFrom/_intervalOf is exact. interval 0 and restarting a stopped loop are outside the statement and not generated. Counts are checked call by call: the count must equal the number of grid boundaries in (previous invocation, now]; across a reset() with a call pending (which re-anchors the grid at the reset time, per its docstring) the part before the reset may be read as old-grid boundaries crossed or as whole intervals elapsed, both accepted, nothing else. A reset() while the function's Deferred is outstanding is not defined by the statement or the docs (the current code ignores it; re-anchoring at the reset time is an equally coherent reading of 'reset the timer'): either base is accepted, but all later calls must stay on the ONE grid the implementation chose, and only the first count after a re-anchoring/ambiguous in-flight reset is left unconstrained. stop()/reset() are only issued while the model says the loop is running (otherwise LoopingCall asserts).",
     design_ref="§5 C10",
-    rule="case = (interval, t0, now, withCount, behaviours, operations). Non-trivial = at least one advance that spans >= 2 intervals while the loop is running and at least one call completed through a Deferred fired later; distinct by the whole case.",
+    rule="case = (clock kind, t0, loops[(interval, now, withCount, behaviours)], operations). Non-trivial = at least one advance that spans >= 2 intervals while the loop is running and at least one call completed through a Deferred fired later; distinct by the whole case.",
 )
 
 TICK = 0.0625
@@ -30,16 +31,21 @@ class _Planned(Exception):
     pass
 
 
-class _Run:
-    def __init__(self, ctx, case):
-        self.ctx = ctx
-        self.case = case
-        self.I = case["interval"]
-        self.now_flag = bool(case["now"])
-        self.with_count = bool(case["count"])
-        self.beh = case["beh"]
+class _Loop:
+    """Model + instrumented function of ONE LoopingCall; the clock, the time
+    and the harness timers belong to the _World and may be shared with other
+    loops and with unrelated timers."""
+
+    def __init__(self, W, idx, spec):
+        self.W = W
+        self.idx = idx
+        self.ctx = W.ctx
+        self.case = W.case
+        self.I = spec["interval"]
+        self.now_flag = bool(spec["now"])
+        self.with_count = bool(spec["count"])
+        self.beh = spec["beh"]
         # model
-        self.now = 0
         self.start = None
         self.bases = []
         self.running = False
@@ -60,9 +66,7 @@ class _Run:
         self.call_times = []
         self.cur = None              # behaviour record of the in-flight call
         self.manual = None           # Deferred to be fired by a "fire" op
-        self.timers = {}             # id(dc) -> dc of harness latency timers
         self.expect = None           # None | ("ok",) | ("fail", exc)
-        self.stash = None
         self.done_t = 0
         self.got = []                # what the start() Deferred did
         self.f_jump = False
@@ -77,24 +81,21 @@ class _Run:
         self.f_inflight_offgrid_resolved = False
         self.f_inflight_offgrid_then_call = False
 
+    now = property(lambda self: self.W.now)
+    K = property(lambda self: self.W.K)
+
     def bad(self, sig, detail):
+        if len(self.W.loops) > 1:
+            detail = f"loop {self.idx}: {detail}"
         self.ctx.violation(sig, self.case, detail)
 
     def flush(self):
-        """Re-raise what was raised inside the looping function (maybeDeferred
-        turns every exception raised there into a Failure)."""
-        e = self.stash
-        if e is not None:
-            self.stash = None
-            raise e
+        self.W.flush()
 
     # ---- set-up ----------------------------------------------------------
-    def begin(self):
-        from twisted.internet.task import Clock, LoopingCall
-        self.K = Clock()
-        t0 = self.case["t0"]
-        self.K.advance(t0 * TICK)
-        self.now = t0
+    def start_loop(self):
+        from twisted.internet.task import LoopingCall
+        t0 = self.now
         if self.with_count:
             self.lc = LoopingCall.withCount(self.f_count)
         else:
@@ -115,7 +116,6 @@ class _Run:
         d.addCallbacks(lambda r: self.got.append(("ok", r)), lambda f: self.got.append(("fail", f)))
         if self.now_flag and self.ncalls != 1:
             self.bad("no-immediate-call", f"start(now=True) made {self.ncalls} calls")
-        self.observe("after start")
 
     # ---- the looping function -------------------------------------------
     def f_plain(self):
@@ -130,8 +130,8 @@ class _Run:
         except _Planned:
             raise
         except BaseException as e:
-            if self.stash is None:
-                self.stash = e
+            if self.W.stash is None:
+                self.W.stash = e
             raise
 
     def _invoke(self, count):
@@ -201,12 +201,12 @@ class _Run:
             self.manual = d
         else:
             ok = kind == "defer"
-            dc = self.K.callLater(arg * TICK, self.timer_fire, d, ok, n)
-            self.timers[id(dc)] = dc
+            dc = self.K.callLater(arg * TICK, self.W.guard, self.timer_fire, d, ok, n)
+            self.W.timers[id(dc)] = dc
         return d
 
     def timer_fire(self, d, ok, n):
-        self.timers = {k: v for k, v in self.timers.items() if v.active()}
+        self.W.prune()
         self.finish_deferred(d, ok, n)
 
     def finish_deferred(self, d, ok, n):
@@ -299,8 +299,8 @@ class _Run:
             self.cands = {b + ((t - b) // self.I + 1) * self.I for b in self.bases}
 
     # ---- observation -------------------------------------------------------
-    def observe(self, where):
-        mine = [dc for dc in self.K.getDelayedCalls() if id(dc) not in self.timers]
+    def observe(self, where, mine):
+        """mine = the clock's pending calls whose function is this LoopingCall."""
         if self.cands is not None:
             if len(mine) != 1:
                 self.bad("not-rescheduled" if not mine else "scheduled-twice",
@@ -355,108 +355,281 @@ class _Run:
             if kind == "fail" and val.value is not self.expect[1]:
                 self.bad("deferred-wrong-failure", f"{where}: {val!r}")
 
-    # ---- operations ------------------------------------------------------
-    def do_adv(self, d):
-        if self.running and d >= 2 * self.I:
-            self.f_jump = True
-        self.now += d
-        self.K.advance(d * TICK)
+    # ---- operations on this loop --------------------------------------------
+    def same_instant_as_other_timer(self):
+        if self.cands is None:
+            return False
+        mine_t = {c * TICK for c in self.cands}
+        for dc in self.K.getDelayedCalls():
+            if getattr(dc, "func", None) is not self.lc and dc.getTime() in mine_t:
+                return True
+        return False
+
+    def op_stop(self, closing=False):
+        if not self.running:
+            return
+        scheduled = self.cands is not None
+        if scheduled and self.same_instant_as_other_timer():
+            self.W.f_coincide = True
+        self.lc.stop()
         self.flush()
-        if self.cands is not None and min(self.cands) <= self.now:
-            self.bad("boundary-call-missed",
-                     f"loop call due at {min(self.cands) * TICK} did not run during the advance to {self.now * TICK}")
+        self.running = False
+        if scheduled:
+            self.cands = None
+            self.expect = ("ok",)
+        elif not closing:
+            self.f_stop_inflight = True
+
+    def op_reset(self):
+        if not self.running:
+            return
+        if self.cands is not None:
+            if self.same_instant_as_other_timer():
+                self.W.f_coincide = True
+            self.lc.reset()
+            self.flush()
+            self.f_reset = True
+            self.note_pending_reset()
+            self.bases = [self.now]
+            self.cands = {self.now + self.I}
+        else:
+            self.lc.reset()
+            self.flush()
+            self.note_inflight_reset()
+
+    def op_fire(self, ok):
+        if self.manual is None:
+            return
+        d = self.manual
+        self.finish_deferred(d, ok, self.ncalls - 1)
+        self.flush()
+
+
+_RCLS = []
+
+
+def _make_reactor():
+    """ReactorBase with stub I/O whose seconds() is a harness variable (the
+    other 'controlled clock' a LoopingCall meets in practice)."""
+    if not _RCLS:
+        from twisted.internet.base import ReactorBase
+
+        class OwnedReactor(ReactorBase):
+            def __init__(self):
+                self.now_ticks = 0
+                ReactorBase.__init__(self)
+
+            def installWaker(self):
+                pass
+
+            def doIteration(self, delay):
+                pass
+
+            def removeAll(self):
+                return []
+
+            def seconds(self):
+                return self.now_ticks * TICK
+
+        _RCLS.append(OwnedReactor)
+    return _RCLS[0]()
+
+
+class _World:
+    def __init__(self, ctx, case):
+        self.ctx = ctx
+        self.case = case
+        self.now = 0
+        self.timers = {}             # id(dc) -> dc: harness latency timers and bystander timers
+        self.stash = None
+        self.backend = case.get("clock", "clock")
+        specs = case.get("loops")
+        if specs is None:            # single-loop case format (older corpus/replay files)
+            specs = [dict(interval=case["interval"], now=case["now"], count=case["count"], beh=case["beh"])]
+        self.loops = [_Loop(self, i, sp) for i, sp in enumerate(specs)]
+        self.f_coincide = False
+        self.f_bystander = False
+        self.f_churn = False
+        self.f_compaction = False
+
+    def bad(self, sig, detail):
+        self.ctx.violation(sig, self.case, detail)
+
+    def flush(self):
+        """Re-raise what was raised inside a looping function or a harness
+        timer (maybeDeferred / the reactor's failure handler swallow it)."""
+        e = self.stash
+        if e is not None:
+            self.stash = None
+            raise e
+
+    def guard(self, fn, *a):
+        try:
+            fn(*a)
+        except BaseException as e:
+            if self.stash is None:
+                self.stash = e
+
+    def prune(self):
+        self.timers = {k: v for k, v in self.timers.items() if v.active()}
+
+    def begin(self):
+        t0 = self.case["t0"]
+        if self.backend == "reactor":
+            self.K = _make_reactor()
+            self.K.now_ticks = t0
+        else:
+            from twisted.internet.task import Clock
+            self.K = Clock()
+            self.K.advance(t0 * TICK)
+        self.now = t0
+        for lp in self.loops:
+            lp.start_loop()
+            self.observe(f"after start of loop {lp.idx}")
+
+    def observe(self, where):
+        buckets = {id(lp.lc): [] for lp in self.loops if hasattr(lp, "lc")}
+        for dc in self.K.getDelayedCalls():
+            if id(dc) in self.timers:
+                continue
+            b = buckets.get(id(getattr(dc, "func", None)))
+            if b is None:
+                self.bad("stray-scheduled-call",
+                         f"{where}: the clock lists a call for {dc.getTime()} that belongs to no running loop "
+                         f"(active={dc.active()})")
+            b.append(dc)
+        for lp in self.loops:
+            if hasattr(lp, "lc"):
+                lp.observe(where, buckets[id(lp.lc)])
+
+    def do_adv(self, d):
+        for lp in self.loops:
+            if lp.running and d >= 2 * lp.I:
+                lp.f_jump = True
+        self.now += d
+        if self.backend == "reactor":
+            R = self.K
+            R.now_ticks += d
+            cb = R._cancellations            # counter only
+            R.iterate()
+            if cb > 50 and R._cancellations == 0:
+                self.f_compaction = True
+        else:
+            self.K.advance(d * TICK)
+        self.flush()
+        for lp in self.loops:
+            if lp.cands is not None and min(lp.cands) <= self.now:
+                lp.bad("boundary-call-missed",
+                       f"loop call due at {min(lp.cands) * TICK} did not run during the advance to {self.now * TICK}")
         self.observe("after advance")
+
+    def by_fire(self):
+        self.prune()
 
     def step(self, op):
         k = op[0]
+        n = len(self.loops)
         if k == "adv":
             self.do_adv(op[1])
         elif k == "advb":
-            # advance to the (op[1]+1)-th next boundary of the current base, plus op[2] ticks
-            b = self.bases[0]
-            nxt = b + ((self.now - b) // self.I + 1) * self.I
-            self.do_adv(nxt + op[1] * self.I + op[2] - self.now)
+            # advance to the (op[1]+1)-th next boundary of a loop's current grid, plus op[2] ticks
+            lp = self.loops[(op[3] if len(op) > 3 else 0) % n]
+            b = lp.bases[0]
+            nxt = b + ((self.now - b) // lp.I + 1) * lp.I
+            self.do_adv(nxt + op[1] * lp.I + op[2] - self.now)
         elif k == "stop":
-            if not self.running:
-                return
-            scheduled = self.cands is not None
-            self.lc.stop()
-            self.flush()
-            self.running = False
-            if scheduled:
-                self.cands = None
-                self.expect = ("ok",)
-            else:
-                self.f_stop_inflight = True
+            self.loops[(op[1] if len(op) > 1 else 0) % n].op_stop()
             self.observe("after stop")
         elif k == "reset":
-            if not self.running:
-                return
-            if self.cands is not None:
-                self.lc.reset()
-                self.f_reset = True
-                self.note_pending_reset()
-                self.bases = [self.now]
-                self.cands = {self.now + self.I}
-            else:
-                self.lc.reset()
-                self.note_inflight_reset()
+            self.loops[(op[1] if len(op) > 1 else 0) % n].op_reset()
             self.observe("after reset")
         elif k == "fire":
-            if self.manual is None:
-                return
-            d = self.manual
-            self.finish_deferred(d, bool(op[1]), self.ncalls - 1)
-            self.flush()
+            self.loops[(op[2] if len(op) > 2 else 0) % n].op_fire(bool(op[1]))
             self.observe("after fire")
+        elif k == "by":
+            # an unrelated timer on the same clock
+            dc = self.K.callLater(op[1] * TICK, self.guard, self.by_fire)
+            self.timers[id(dc)] = dc
+            self.f_bystander = True
+        elif k == "byb":
+            # an unrelated timer exactly on the (op[2]+1)-th next boundary of loop op[1]
+            lp = self.loops[op[1] % n]
+            b = lp.bases[0]
+            nxt = b + ((self.now - b) // lp.I + 1 + op[2]) * lp.I
+            dc = self.K.callLater((nxt - self.now) * TICK, self.guard, self.by_fire)
+            self.timers[id(dc)] = dc
+            self.f_bystander = True
+        elif k == "churn":
+            # an idle-timer pattern: reset one loop op[2] times, letting the clock
+            # tick (op[3] ticks, possibly 0) after every reset
+            lp = self.loops[op[1] % n]
+            self.f_churn = True
+            for _ in range(op[2]):
+                lp.op_reset()
+                self.observe("after reset")
+                self.do_adv(op[3])
         else:
             raise AssertionError(f"unknown op {op!r}")
 
     def close(self):
-        if self.manual is not None:
-            self.step(["fire", 1])
+        for lp in self.loops:
+            if lp.manual is not None:
+                lp.op_fire(True)
+                self.observe("after fire")
+        for lp in self.loops:
+            if lp.running:
+                lp.op_stop(closing=True)
+                self.observe("after stop")
         rounds = 0
-        while self.inflight:
+        while any(lp.inflight for lp in self.loops):
             rounds += 1
-            if rounds > 4:
+            if rounds > 6:
                 raise AssertionError("in-flight call did not complete in closing")
             pend = [dc.getTime() for dc in self.timers.values() if dc.active()]
             if not pend:
                 raise AssertionError("in flight without timer or manual deferred")
             self.do_adv(max(0, int(max(pend) / TICK) - self.now))
-        if self.running:
-            self.step(["stop"])
-        if self.expect is None:
-            self.bad("deferred-never-fired", "after stop/failure and completion of the last call")
-        n = self.ncalls
-        self.do_adv(3 * self.I + 1)
+        for lp in self.loops:
+            if lp.expect is None:
+                lp.bad("deferred-never-fired", "after stop/failure and completion of the last call")
+        n = [lp.ncalls for lp in self.loops]
+        self.do_adv(3 * max(lp.I for lp in self.loops) + 1)
         self.do_adv(0)
-        if self.ncalls != n:
-            self.bad("called-after-deferred-fired", f"{self.ncalls - n} calls after the end")
-        if len(self.got) != 1:
-            self.bad("deferred-fired-%d-times-want-1" % len(self.got), "at the end")
+        for lp, n0 in zip(self.loops, n):
+            if lp.ncalls != n0:
+                lp.bad("called-after-deferred-fired", f"{lp.ncalls - n0} calls after the end")
+            if len(lp.got) != 1:
+                lp.bad("deferred-fired-%d-times-want-1" % len(lp.got), "at the end")
 
 
 def run_case(ctx, case):
-    r = _Run(ctx, case)
-    r.begin()
+    W = _World(ctx, case)
+    W.begin()
     for op in case["ops"]:
-        r.step(op)
-    r.close()
-    ctx.count("function calls", r.ncalls)
-    for flag, label in ((r.f_jump, "scenario: advance spanning >=2 intervals"),
-                        (r.f_deferred_done, "scenario: completion through a later-fired Deferred"),
-                        (r.f_boundary_hit, "scenario: call exactly on its boundary"),
-                        (r.f_stop_inflight, "scenario: stop while call unfinished"),
-                        (r.f_reset, "scenario: reset"),
-                        (r.f_inflight_offgrid_then_call, "scenario: off-grid reset while call unfinished, later call observed"),
-                        (r.f_fail, "scenario: failure ends the loop"),
-                        (r.f_skip, "scenario: count > 1 passed"),
-                        (r.with_count, "scenario: withCount"),
-                        (r.now_flag, "scenario: now=True")):
+        W.step(op)
+    W.close()
+    L = W.loops
+    ctx.count("function calls", sum(lp.ncalls for lp in L))
+    for flag, label in ((any(lp.f_jump for lp in L), "scenario: advance spanning >=2 intervals"),
+                        (any(lp.f_deferred_done for lp in L), "scenario: completion through a later-fired Deferred"),
+                        (any(lp.f_boundary_hit for lp in L), "scenario: call exactly on its boundary"),
+                        (any(lp.f_stop_inflight for lp in L), "scenario: stop while call unfinished"),
+                        (any(lp.f_reset for lp in L), "scenario: reset"),
+                        (any(lp.f_inflight_offgrid_then_call for lp in L),
+                         "scenario: off-grid reset while call unfinished, later call observed"),
+                        (any(lp.f_fail for lp in L), "scenario: failure ends the loop"),
+                        (any(lp.f_skip for lp in L), "scenario: count > 1 passed"),
+                        (any(lp.with_count for lp in L), "scenario: withCount"),
+                        (any(lp.now_flag for lp in L), "scenario: now=True"),
+                        (len(L) > 1, "scenario: several loops share the clock"),
+                        (W.f_bystander, "scenario: unrelated timer on the same clock"),
+                        (W.f_coincide, "scenario: stop/reset while another timer is pending for the same instant"),
+                        (W.backend == "reactor", "scenario: clock is a ReactorBase with owned seconds()"),
+                        (W.f_churn, "scenario: churn of >50 reset+tick rounds"),
+                        (W.f_compaction, "scenario: reactor timer-queue compaction happened")):
         if flag:
             ctx.count(label)
-    if r.f_jump and r.f_deferred_done:
+    if any(lp.f_jump for lp in L) and any(lp.f_deferred_done for lp in L):
         ctx.nontrivial(case)
         ctx.count("nontrivial")
         if len(ctx.samples) < 5 and len(case["ops"]) <= 6:
@@ -481,41 +654,77 @@ def _dec_beh(w, I):
     return [kind, lat if kind in ("defer", "deferfail") else 0, pre]
 
 
-def _dec_op(w, I):
+def _dec_op(w, Is):
+    """One operation from a 3-byte word; Is = the intervals of the loops."""
     x = int.from_bytes(w, "little")
     k = x % 16
     x //= 16
     a = x % 16
     x //= 16
     b = x % 16
-    if k < 7:
+    x //= 16
+    li = (x % 4) % len(Is)
+    I = Is[li]
+    if k < 6:
         d = (1, I, I - 1, I + 1, 2 * I, I // 2, 3 * I + 1, 0, 2, 5 * I, 7, 3, 2 * I - 1, 9 * I + 2, I, 1)[a]
         return ["adv", d]
-    if k < 11:
-        return ["advb", (0, 0, 0, 1, 2, 0, 1, 4)[a % 8], (0, 0, 0, 1, 0, I - 1 if I > 1 else 0, 0, 2)[b % 8]]
+    if k < 10:
+        return ["advb", (0, 0, 0, 1, 2, 0, 1, 4)[a % 8], (0, 0, 0, 1, 0, I - 1 if I > 1 else 0, 0, 2)[b % 8], li]
+    if k == 10:
+        return ["stop", li]
     if k == 11:
-        return ["stop"]
+        return ["reset", li]
     if k == 12:
-        return ["reset"]
+        return ["fire", 0, li]
     if k == 13:
-        return ["fire", 0]
-    return ["fire", 1]
+        return ["fire", 1, li]
+    if k == 14:
+        if a < 10:
+            return ["byb", li, (0, 0, 1, 2)[b % 4]]
+        return ["by", (0, 1, I, 2 * I, 3, 7)[a - 10]]
+    return ["adv", 0]
+
+
+_IV = (2, 3, 4, 5, 6, 8, 16, 2, 3, 4, 1, 7, 24, 48, 12, 10)
 
 
 def _strategy():
-    def build(I, t0, flags, behw, opw):
-        return dict(interval=I, t0=t0, now=flags & 1, count=(flags >> 1) & 1,
-                    beh=[_dec_beh(w, I) for w in behw], ops=[_dec_op(w, I) for w in opw])
+    word2 = st.binary(min_size=2, max_size=2)
+    word3 = st.binary(min_size=3, max_size=3)
+    loop = st.tuples(st.integers(0, 255), st.lists(word2, min_size=0, max_size=8))
+    ops = st.one_of(st.lists(word3, min_size=0, max_size=60), st.lists(word3, min_size=8, max_size=60),
+                    st.lists(word3, min_size=20, max_size=60))
+    churn = st.tuples(st.integers(0, 60), st.integers(0, 2), st.sampled_from([52, 55, 64]),
+                      st.sampled_from([0, 0, 0, 1]))
+
+    def build(head, i0, loops, t0, opw, churns):
+        nl = (1, 1, 1, 2, 2, 3, 2, 3)[head % 8]
+        backend = "reactor" if (head >> 3) % 5 < 2 else "clock"
+        specs = []
+        for j, (lw, behw) in enumerate(loops[:nl]):
+            if j == 0:
+                I = i0
+            elif lw % 4 == 0:
+                I = specs[0]["interval"]          # in phase with loop 0
+            else:
+                I = _IV[(lw >> 2) % 16]
+            specs.append(dict(interval=I, now=(lw >> 6) & 1, count=(lw >> 7) & 1,
+                              beh=[_dec_beh(w, I) for w in behw]))
+        Is = [sp["interval"] for sp in specs]
+        opl = [_dec_op(w, Is) for w in opw]
+        for pos, li, n, step in churns:
+            opl.insert(pos % (len(opl) + 1), ["churn", li % len(Is), n, step])
+        return dict(t0=t0, clock=backend, loops=specs, ops=opl)
 
     interval = st.one_of(st.sampled_from([1, 2, 3, 4, 5, 7, 8, 16, 16, 24, 48]), st.integers(1, 64))
-    word = st.binary(min_size=2, max_size=2)
-    ops = st.one_of(st.lists(word, min_size=0, max_size=60), st.lists(word, min_size=8, max_size=60),
-                    st.lists(word, min_size=20, max_size=60))
-    return st.builds(build, interval, st.sampled_from([0, 0, 1, 5, 16, 37]), st.integers(0, 3),
-                     st.lists(word, min_size=0, max_size=12), ops)
+    loops3 = st.tuples(loop, loop, loop).map(list)
+    common = (st.integers(0, 255), interval, loops3, st.sampled_from([0, 0, 1, 5, 16, 37]), ops)
+    plain = st.builds(build, *common, st.just([]))
+    churny = st.builds(build, *common, st.lists(churn, min_size=1, max_size=1))
+    return plain, churny
 
 
-# complete small scope -------------------------------------------------------
+# complete small scopes ------------------------------------------------------
 
 _B5 = (["ret", 0, ""], ["raise", 0, ""], ["defer", 3, ""], ["hang", 0, ""], ["ret", 0, "stop"])
 
@@ -535,17 +744,60 @@ def _small_scope(arg, maxlen):
                     yield dict(interval=I, t0=1, now=now, count=count, beh=[b0, b1], ops=list(seq))
 
 
+def _pair_scope(maxlen):
+    """Two loops (and an optional unrelated timer on a boundary) on one clock,
+    both clock kinds: every op sequence up to maxlen."""
+    import itertools
+    L = (["adv", 1], ["adv", 2], ["adv", 5], ["stop", 0], ["stop", 1], ["reset", 0], ["reset", 1], ["byb", 0, 0])
+    for backend in ("clock", "reactor"):
+        for I0, I1 in ((2, 2), (2, 3), (2, 4), (3, 3)):
+            for n0, n1 in ((0, 0), (1, 1), (0, 1)):
+                for cnt in (0, 1):
+                    loops = [dict(interval=I0, now=n0, count=cnt, beh=[]), dict(interval=I1, now=n1, count=0, beh=[])]
+                    for n in range(maxlen + 1):
+                        for seq in itertools.product(L, repeat=n):
+                            yield dict(t0=1, clock=backend, loops=loops, ops=list(seq))
+
+
+def _churn_scope(maxlen):
+    """Three loops on a reactor-backed clock; one of them is churned (52
+    reset+tick rounds: enough cancelled timers for the reactor to compact its
+    queue), then every advance sequence up to maxlen."""
+    import itertools
+    L = (["adv", 1], ["adv", 2], ["adv", 3])
+    for backend in ("reactor", "clock"):
+        for Is in itertools.permutations((2, 3, 5)):
+            for now in (0, 1):
+                for li in range(3):
+                    for step in ((0, 1) if backend == "reactor" else (0,)):
+                        loops = [dict(interval=I, now=now, count=0, beh=[]) for I in Is]
+                        for n in range(maxlen + 1):
+                            for seq in itertools.product(L, repeat=n):
+                                yield dict(t0=1, clock=backend, loops=loops,
+                                           ops=[["churn", li, 52, step]] + list(seq))
+
+
 def _enum_shard(ctx, arg):
-    enumerate_run(ctx, _small_scope(arg[:3], arg[3]), run_case)
+    if arg[0] == "pair":
+        enumerate_run(ctx, _pair_scope(arg[1]), run_case)
+    elif arg[0] == "churn":
+        enumerate_run(ctx, _churn_scope(arg[1]), run_case)
+    else:
+        enumerate_run(ctx, _small_scope(arg[:3], arg[3]), run_case)
 
 
 def _hyp_shard(ctx, i):
-    hyp_run(ctx, _strategy(), run_case, 12000, label=f"shard{i}")
+    plain, churny = _strategy()
+    hyp_run(ctx, plain, run_case, 10000, label=f"shard{i}")
+    if ctx.has_violation():
+        return
+    hyp_run(ctx, churny, run_case, 1000, label=f"churn-shard{i}")
 
 
 def run(ctx):
     maxlen = ctx.pick(3, 5)
     args = [(I, now, count, maxlen) for I in (2, 3) for now in (0, 1) for count in (0, 1)]
+    args += [("pair", ctx.pick(3, 4)), ("churn", ctx.pick(2, 3))]
     if ctx.thorough:
         ctx.shards(_enum_shard, args)
     else:
@@ -553,12 +805,21 @@ def run(ctx):
             _enum_shard(ctx, a)
             if ctx.has_violation():
                 break
-    ctx.extra["exhaustive_scope"] = (f"interval in {{2,3}} ticks x now x withCount x 25 behaviour pairs x "
-                                     f"every op sequence of length 0..{maxlen} over 7 letters")
+    ctx.extra["exhaustive_scope"] = (f"(a) one loop: interval in {{2,3}} ticks x now x withCount x 25 behaviour pairs x "
+                                     f"every op sequence of length 0..{maxlen} over 7 letters; (b) two loops sharing a "
+                                     f"task.Clock / a ReactorBase clock: 4 interval pairs x 3 now pairs x withCount x every "
+                                     f"sequence of length 0..{ctx.pick(3, 4)} over 8 letters (advances, stop/reset of either "
+                                     f"loop, an unrelated timer on a boundary); (c) three loops (intervals 2,3,5 in every "
+                                     f"order), one churned by 52 reset+tick rounds, then every advance sequence of length "
+                                     f"0..{ctx.pick(2, 3)}")
     ctx.exhaustive = False
     if ctx.has_violation():
         return
     if ctx.thorough:
         ctx.shards(_hyp_shard, list(range(16)))
         return
-    hyp_run(ctx, _strategy(), run_case, 4000, label="scenarios")
+    plain, churny = _strategy()
+    hyp_run(ctx, plain, run_case, 3500, label="scenarios")
+    if ctx.has_violation():
+        return
+    hyp_run(ctx, churny, run_case, 250, label="churn")
